@@ -36,7 +36,9 @@ CONSTANTS
   Fire, Close, Erase, IdOps, Crash, Garbage, BadFrames, SendWhileDisc, PeerWhileDisc,
   LateFrames,         \* frames already in flight still arrive after the connection asked for the close
   CrossVersion,       \* the application also hands in packets of the OTHER protocol version (must be refused)
-  Restore             \* a fresh object is given an export first - also malformed ones (duplicate ids, QoS 0 entries)
+  Restore,            \* a fresh object is given an export first - also malformed ones (duplicate ids, QoS 0 entries)
+  Regulate_,          \* the application asks for the store form of v5.0 PUBLISH packets (regulate_for_store, a pure query)
+  OptFlips            \* options the application may switch on AND off at any time (not only before the first connection)
 
 VARIABLES st,    \* Endpoint state of the object under test
           sh,    \* shadow object [mode, st]: fresh / fixed-version / restored copy (C10, C17, C16)
@@ -161,6 +163,11 @@ EnvChoices(s, gh) ==
                      l \in { << P(1, 1) >>, << P(2, 1), P(1, 2) >>, << L(1) >>,
                              << P(1, 1), P(2, 1) >>, << P(2, 1), P(1, 1) >>, << P(1, 1), P(1, 1) >>, << P(1, 1), L(1) >>, << L(1), P(2, 1) >>,
                              << P(0, 0), P(1, 1) >>, << P(1, 2), P(0, 0) >> } }
+        ELSE {})
+  \cup { [Call("opt") EXCEPT !.name = n, !.flag = b] :
+           n \in { x \in OptFlips : ~quiet }, b \in { y \in BOOLEAN : \A x \in OptFlips : TRUE } }
+  \cup (IF Regulate_ /\ s.ver = "v50"
+        THEN { [Call("regulate") EXCEPT !.pkt = p] : p \in { q \in PublishPkts("v50", {0}, s.idw) : q.qos = 0 /\ (q.topic # "" \/ q.alias # 0) } }
         ELSE {})
   (* identifiers *)
   \cup (IF ~quiet /\ Cardinality(gh.held) < MaxHeld /\ Cardinality(gh.used) < MaxUsed THEN { Call("acquire") } ELSE {})
